@@ -41,6 +41,7 @@ ASSUMPTIONS = [
     "the original object model is the font loaded with lazy=False with every table decompiled; both sides are saved as plain sfnt with recalcBBoxes=False, recalcTimestamp=False and compared table by table through a spec-written directory parser; head.checkSumAdjustment is container-level and excluded",
     "free-text white-space normalisation (stated in the property) is granted only when a struct-level comparison (vmon/oracle/c03_strings.py) shows that the sole difference is name-record / CFF String INDEX data equal after collapsing XML white space",
     "per-table dumps (tables=/skipTables=) are imported on top of the original font, as `ttx -m` does",
+    "dumps are written into a scratch sub-directory named by an absolute path, by a relative path with a directory component, or by a bare file name in the current directory (the worker's cwd is moved for that option set and restored)",
     "hostile strings are limited to what the binary formats can carry and XML 1.0 can represent: glyph names get XML-special ASCII characters only (no blanks/commas: TTX uses them as list separators), name records / meta text / SVG documents get &, <, >, quotes, ]]>, non-BMP, tab/CR/LF and leading/trailing blanks",
     "expat is the trusted XML parser for the escape post-condition; characters XML 1.0 cannot represent are documented as replaced by '?'",
 ]
@@ -216,14 +217,19 @@ def _has_instr(rec):
     return any(t in rec["tables"] for t in ("glyf", "fpgm", "prep"))
 
 
-def _opt(split="whole", disasm=True, nl="LF", bitmap="raw", sel=None, via="api", model="binary"):
-    return {"split": split, "disasm": disasm, "nl": nl, "bitmap": bitmap, "sel": sel, "via": via, "model": model}
+def _opt(split="whole", disasm=True, nl="LF", bitmap="raw", sel=None, via="api", model="binary", path="abs"):
+    """path: how the dump's file name is given - "abs" absolute path into a scratch sub-directory,
+    "rel" relative path with a directory component, "cwd" bare file name in the current directory."""
+    return {"split": split, "disasm": disasm, "nl": nl, "bitmap": bitmap, "sel": sel, "via": via, "model": model,
+            "path": path}
 
 
 def _opt_id(o):
     s = "%s/%s/%s/%s/%s/%s" % (o["split"], "asm" if o["disasm"] else "hex", o["nl"], o["bitmap"], o["via"], o["model"])
     if o["sel"]:
         s += "/%s=%s" % (o["sel"][0], ",".join(t.strip() for t in o["sel"][1]))
+    if o.get("path", "abs") != "abs":
+        s += "/path=" + o["path"]
     return s
 
 
@@ -249,7 +255,7 @@ def _full_opts(rec):
     return out
 
 
-HOSTILE_KINDS = ["glyphnames", "name", "meta", "svg", "ttprogram"]
+HOSTILE_KINDS = ["glyphnames", "name", "meta", "svg", "ttprogram", "glyphclash"]
 
 
 def cases(tier, seed):
@@ -305,8 +311,10 @@ def cases(tier, seed):
         for kind in (kinds if T else rnd.sample(kinds, 2)):
             if kind == "glyphnames" and rec["outlines"] not in ("glyf", "CFF "):
                 continue
-            if kind == "ttprogram" and rec["outlines"] != "glyf":
+            if kind in ("ttprogram", "glyphclash") and rec["outlines"] != "glyf":
                 continue
+            if kind == "glyphclash":
+                continue      # generated below on a dedicated host list
             if kind == "ttprogram":
                 opts = [_opt(), _opt(disasm=False), _opt(split="glyphs", nl=rnd.choice(["CR", "CRLF"]))]
                 if T:
@@ -318,8 +326,21 @@ def cases(tier, seed):
                 [_opt(), _opt(split="tables", nl="CR"), _opt(nl="CRLF"), _opt(split="glyphs" if "glyf" in rec["tables"] else "tables")]
             out.append({"id": "hostile:%s:%s" % (kind, _fid(rec)), "kind": "hostile", "hostile": kind, "path": rec["path"],
                         "member": None, "seed": seed, "opts": opts})
-    # generated EBDT/EBLC bitmap fonts (all four bitmap formats; the corpus has CBDT only)
+    # glyph names that collide after file-name mangling (per-glyph split dumps write one file per
+    # glyph): every way of naming the output file, API and CLI
     glyf = [r for r in pool if r["outlines"] == "glyf" and 6 <= r["numGlyphs"] <= 400]
+    chosen = rnd.sample(glyf, min(len(glyf), 30 if T else 8))
+    for rec in chosen:
+        opts = [_opt(split="glyphs"), _opt(split="glyphs", path="rel", nl=rnd.choice(["CR", "CRLF"])),
+                _opt(split="glyphs", path="cwd", disasm=False), _opt(split="tables"), _opt()]
+        if T:
+            opts += [_opt(split="glyphs", via="cli"), _opt(split="glyphs", via="cli", path="rel"),
+                     _opt(split="glyphs", via="cli", path="cwd"), _opt(split="glyphs", sel=["tables", ["glyf"]])]
+        else:
+            opts.append(_opt(split="glyphs", via="cli", path=rnd.choice(["abs", "rel"])))
+        out.append({"id": "hostile:glyphclash:%s" % _fid(rec), "kind": "hostile", "hostile": "glyphclash", "path": rec["path"],
+                    "member": None, "seed": seed, "opts": opts})
+    # generated EBDT/EBLC bitmap fonts (all four bitmap formats; the corpus has CBDT only)
     for i in range(12 if T else 4):
         rec = glyf[(seed * 7 + i * 5) % len(glyf)]
         opts = [_opt(bitmap=b) for b in ("raw", "row", "bitwise", "extfile")]
@@ -383,7 +404,12 @@ def _inject(font, kind, rnd, ctx):
     return None
 
 
-def _hostile_glyphnames(src, rnd):
+_LONG = "uni0644_uni0627_" * 15      # 240 characters: file names are clipped well before the suffix
+CLASH_SETS = [["k/alt", "k:alt", "k*alt"], ["Q?x", "Q|x"], ["K", "k_"], ["Ka.sc", "k_a.sc"],
+              [_LONG + ".init", _LONG + ".medi", _LONG + ".fina"], ["a<b", "a>b", 'a"b'], ["con", "_con"]]
+
+
+def _hostile_glyphnames(src, rnd, clash=False):
     """Glyph names live only in `post` (format 2) or in the CFF charset; every other table
     stores glyph ids.  So only that one table is decoded, renamed and recompiled; all other
     tables of the derived font are the source's raw bytes."""
@@ -402,8 +428,26 @@ def _hostile_glyphnames(src, rnd):
         return None, None
     if len(order) < 3 or len(set(order)) != len(order):
         return None, None
-    idx = rnd.sample(range(1, len(order)), min(len(order) - 1, len(HOSTILE_GLYPH)))
-    names = rnd.sample(HOSTILE_GLYPH, len(idx))
+    if clash:
+        # names that map to the same per-glyph file name, given to glyphs that have outlines
+        # (only those get a file of their own)
+        g = TTFont(io.BytesIO(src), lazy=False)
+        outlined = [i for i, n in enumerate(order) if i and g["glyf"][n].numberOfContours != 0]
+        if len(outlined) < 2:
+            return None, None
+        rnd.shuffle(outlined)
+        sets = list(CLASH_SETS)
+        rnd.shuffle(sets)
+        idx, names = [], []
+        for st in sets:
+            st = [n for n in st if n not in order]
+            if len(st) >= 2 and len(outlined) - len(idx) >= 2:
+                k = min(len(st), len(outlined) - len(idx))
+                names += st[:k]
+                idx += outlined[len(idx):len(idx) + k]
+    else:
+        idx = rnd.sample(range(1, len(order)), min(len(order) - 1, len(HOSTILE_GLYPH)))
+        names = rnd.sample(HOSTILE_GLYPH, len(idx))
     new = list(order)
     for i, n in zip(idx, names):
         new[i] = n
@@ -422,7 +466,7 @@ def _hostile_glyphnames(src, rnd):
     chk = TTFont(io.BytesIO(out), lazy=True)
     if list(chk.getGlyphOrder()) != new:
         return None, None
-    return out, "glyphnames:%d renamed" % len(idx)
+    return out, "glyphnames:%d renamed%s" % (len(idx), " to names colliding as file names" if clash else "")
 
 
 def _tt_bytecode(rnd, n):
@@ -491,6 +535,8 @@ def _hostile_source(src, kind, rnd, ctx):
 
     if kind == "glyphnames":
         return _hostile_glyphnames(src, rnd)
+    if kind == "glyphclash":
+        return _hostile_glyphnames(src, rnd, clash=True)
     if kind == "ttprogram":
         return _hostile_ttprogram(src, rnd)
     f = TTFont(io.BytesIO(src), lazy=True, recalcBBoxes=False, recalcTimestamp=False)
@@ -611,6 +657,7 @@ def _run(case, ctx, rnd, scratch):
         label = "%s [%s]" % (label0, _opt_id(o))
         d = os.path.join(scratch, "o%d" % n)
         os.makedirs(d)
+        cwd = os.getcwd()
         try:
             ref = reference(o["model"])
             info = _one(ctx, case, src, ref, o, d, label, rnd)
@@ -619,6 +666,7 @@ def _run(case, ctx, rnd, scratch):
         except _Abort:
             ctx.note("option-set-abandoned")
         finally:
+            os.chdir(cwd)
             shutil.rmtree(d, ignore_errors=True)
     if samples:
         ctx.sample = {"case": case["id"], "derived": desc, "option_sets": samples[:3]}
@@ -641,7 +689,13 @@ def _one(ctx, case, src, ref, o, d, label, rnd):
 
     _cur.update(dumped=[], parsed=[], src=0)
     esc0 = _cur["esc_hard"]
-    ttx = os.path.join(d, "font.ttx")
+    style = o.get("path", "abs")
+    if style == "abs":
+        ttx = os.path.join(d, "font.ttx")
+    else:
+        # relative names: the working directory is moved for the duration of this option set
+        os.chdir(os.path.dirname(d) if style == "rel" else d)
+        ttx = os.path.join(os.path.basename(d), "font.ttx") if style == "rel" else "font.ttx"
     out_font = os.path.join(d, "out.bin")
     sel = o["sel"]
     kw = dict(splitTables=o["split"] in ("tables", "glyphs"), splitGlyphs=o["split"] == "glyphs",
@@ -675,6 +729,7 @@ def _one(ctx, case, src, ref, o, d, label, rnd):
                 raise _Abort()
         except Exception as e:
             _fail(ctx, "dump", e, label, via="cli")
+        _check_glyph_files(ctx, o, d, label)
         try:
             TTX.main(["-q", "-b", "--no-recalc-timestamp", "-o", out_font, ttx])
         except SystemExit as e:
@@ -695,6 +750,7 @@ def _one(ctx, case, src, ref, o, d, label, rnd):
             a.saveXML(ttx, newlinestr=NEWLINES[o["nl"]], **kw)
         except Exception as e:
             _fail(ctx, "dump", e, label, **({"bitmapGlyphDataFormat": o["bitmap"]} if o["bitmap"] != "raw" else {}))
+        _check_glyph_files(ctx, o, d, label)
         if merge:
             with hooks.quiet():
                 b = _load_model(src) if o["model"] == "binary" else _dump_model(case, src, o)
@@ -780,6 +836,36 @@ def _one(ctx, case, src, ref, o, d, label, rnd):
                                              o["model"], "/sel" if sel else ""))
     return {"options": _opt_id(o), "tables_dumped": len(dumped), "tables_compared": len(ref),
             "src_includes": _cur["src"], "whitespace_normalised_tables": nws}
+
+
+def _check_glyph_files(ctx, o, d, label):
+    if o["split"] != "glyphs":
+        return
+    shared = _shared_glyph_files(d)
+    if shared is not None:
+        ctx.judged()
+    if shared:
+        ctx.violation({"kind": "split-glyph-file-shared", "path_style": o.get("path", "abs")},
+                      "%s: per-glyph split dump references one file for several glyphs (a later glyph overwrote an earlier one)"
+                      % label, {"files": shared[:4]})
+
+
+def _shared_glyph_files(d):
+    """Per-glyph split dump: every <TTGlyph src=.../> must name a file of its own and the file must
+    exist (read straight from the glyf index file; independent of the importer)."""
+    p = os.path.join(d, "font._g_l_y_f.ttx")
+    if not os.path.exists(p):
+        return None
+    with open(p, "rb") as fh:
+        srcs = re.findall(r'<TTGlyph src="([^"]*)"/>', fh.read().decode("utf-8", "replace"))
+    _cur["glyph_files"] = len(srcs)
+    seen, dup = set(), []
+    for x in srcs:
+        if x.lower() in seen or not os.path.exists(os.path.join(d, x.replace("&amp;", "&").replace("&lt;", "<")
+                                                                 .replace("&gt;", ">").replace("&quot;", '"'))):
+            dup.append(x)
+        seen.add(x.lower())
+    return dup
 
 
 def _illformed_cause(d, e):
